@@ -38,6 +38,7 @@ const (
 	KErrNew  = "errnew" // XErr.new("msg") as an expression (raises at construction)
 	KNat     = "nat"    // an expression the interpreter itself fails on: Names[0] = source, Str = kind, Msg = message
 	KIter    = "iter"   // <{|i| pre; yield i if i < Int; post; recur(i + 1)}>.new(0)   (L = pre, Post = post statements)
+	KNative  = "native" // recv.<Str: map|select|exclude|all?|any?|reduce>(callback B [, init: C]); Bool = trailing-block form
 	KTry     = "try"    // recv.try.{|x| body}.<accessor Str: val | or | err?>  (C = default of or)
 	KProgram = "program"
 )
@@ -406,6 +407,27 @@ func printExpr(sb *strings.Builder, n *N, depth int) {
 		if n.Str == "or" {
 			sb.WriteString("(")
 			printExpr(sb, n.C, depth)
+			sb.WriteString(")")
+		}
+	case KNative:
+		printRecv(sb, n.A, depth)
+		sb.WriteString("." + n.Str)
+		switch {
+		case n.Bool && n.C != nil:
+			sb.WriteString("(init: ")
+			printExpr(sb, n.C, depth)
+			sb.WriteString(") ")
+			printExpr(sb, n.B, depth)
+		case n.Bool:
+			sb.WriteString(" ")
+			printExpr(sb, n.B, depth)
+		default:
+			sb.WriteString("(")
+			printExpr(sb, n.B, depth)
+			if n.C != nil {
+				sb.WriteString(", init: ")
+				printExpr(sb, n.C, depth)
+			}
 			sb.WriteString(")")
 		}
 	case KVarC:
